@@ -533,6 +533,118 @@ func systemCase(run *ev.Run, c sysCase) (calls int) {
 	return y.calls
 }
 
+// noQuorumBatch: the entry node hosts every partition a batch touches, but one of them cannot apply anything (its group has
+// two replicas and the other one is down: no leader). The batch's other items must land at their owners - acknowledged
+// means stored - and the items of the stuck partition must come back with an error, whichever group is handled first.
+func noQuorumBatch(run *ev.Run) int {
+	calls := 0
+	for _, op := range []string{"BatchInsert", "BatchRemove"} {
+		for _, stuck := range []int{0, 1, 2} {
+			calls++
+			func() {
+				fakes.Reset()
+				vrt.ResetContexts()
+				s := vrt.New()
+				s.Horizon = 5000000
+				s.Begin()
+				placement := [][]uint64{{1}, {1}, {1}}
+				placement[stuck] = []uint64{1, 2}
+				meta := world.DatasetMeta(2, pb.Space_Euclidean, placement, 2)
+				var node *world.RNode
+				defer func() {
+					s.End()
+					if node != nil {
+						node.Close()
+					}
+				}()
+				phase := func(name string, f func()) bool {
+					done := false
+					s.Spawn("n1/"+name, true, func() { f(); done = true })
+					s.Run(def{}, nil)
+					return done && s.Panicked() == nil
+				}
+				if !phase("setup", func() {
+					node = world.NewRNode(1, world.MemDB(), []uint64{1, 2}) // node 2 never starts
+					if err := node.ApplyCreate(meta); err != nil {
+						panic(err)
+					}
+				}) || !phase("campaign", func() { node.Campaign(meta) }) {
+					run.Violation("cluster-setup-failed", "no-quorum batch world", map[string]interface{}{"no_quorum_batch": true})
+					return
+				}
+				ids := idsFor(3)
+				ds := node.Dataset(meta)
+				if op == "BatchRemove" {
+					for _, id := range ids {
+						o := int(utils.UuidMod(id, 3))
+						if o != stuck {
+							ds.VerifPartition(o).Index().Insert(id, []float32{9, 9}, nil, 0)
+						}
+					}
+				}
+				var items []*pb.BatchItem
+				for _, id := range ids {
+					items = append(items, &pb.BatchItem{Id: id.Bytes(), Value: []float32{1, 2}})
+				}
+				var errs map[uuid.UUID]error
+				var err error
+				done := false
+				s.Spawn("n1/caller", true, func() {
+					if op == "BatchInsert" {
+						errs, err = ds.BatchInsert(context.Background(), items)
+					} else {
+						errs, err = ds.BatchRemove(context.Background(), items)
+					}
+					done = true
+				})
+				s.Run(def{}, nil)
+				for round := 0; round < 6 && !done; round++ {
+					// time passes for the caller: its proposal deadlines fire
+					for _, t := range s.Timers() {
+						if t.Kind == "deadline" && t.Armed() {
+							s.Fire(t)
+						}
+					}
+					s.Run(def{}, nil)
+				}
+				what := fmt.Sprintf("%s of ids of all 3 partitions through the node that hosts them all, partition %d's group has no leader", op, stuck)
+				payload := map[string]interface{}{"no_quorum_batch": true, "op": op, "stuck": stuck}
+				if t := s.Panicked(); t != nil {
+					run.Violation("write-path-wedged-or-panicked", fmt.Sprintf("%s: panic in %s: %v", what, t.Name, t.Panic), payload)
+					return
+				}
+				if !done {
+					run.Violation("write-path-wedged-or-panicked", what+": the call did not return although every deadline fired: "+strings.Join(s.Blocked(), "; "), payload)
+					return
+				}
+				if os.Getenv("VERIF_DEBUG") != "" {
+					fmt.Fprintf(os.Stderr, "%s: done=%v err=%v item-errors=%d\n", what, done, err, len(errs))
+				}
+				if err != nil {
+					return // the whole call failed loudly: nothing is claimed
+				}
+				for _, id := range ids {
+					o := int(utils.UuidMod(id, 3))
+					_, gerr := ds.VerifPartition(o).Index().Get(id)
+					stored := gerr == nil
+					switch {
+					case o == stuck && errs[id] == nil:
+						run.Violation("batch-item-acknowledged-by-a-group-without-leader:"+op, fmt.Sprintf("%s: id %x of the stuck partition is reported without an error (errors: %d)", what, id[:3], len(errs)), payload)
+						return
+					case o != stuck && errs[id] == nil && op == "BatchInsert" && !stored:
+						run.Violation("acknowledged-batch-item-stored-nowhere:"+op, fmt.Sprintf("%s: id %x (owner partition %d, healthy) is acknowledged but not stored at its owner", what, id[:3], o), payload)
+						return
+					case o != stuck && errs[id] == nil && op == "BatchRemove" && stored:
+						run.Violation("acknowledged-batch-item-stored-nowhere:"+op, fmt.Sprintf("%s: id %x (owner partition %d, healthy) is acknowledged as removed but still stored", what, id[:3], o), payload)
+						return
+					}
+				}
+			}()
+		}
+	}
+	return calls
+}
+
 // batchScenario: one batch spanning two remote partitions, explored over interleavings.
 func batchScenario(kind string) *explore.Scenario {
 	c := sysCase{3, [][]uint64{{2}, {3}}}
@@ -633,6 +745,16 @@ func main() {
 				Case *sysCase `json:"case"`
 			} `json:"replay"`
 		}
+		if b, err := os.ReadFile(os.Args[2]); err == nil && strings.Contains(string(b), "no_quorum_batch") {
+			run := ev.Start("C10", "model_checking")
+			noQuorumBatch(run)
+			if run.NewViolations() > 0 {
+				fmt.Printf("VIOLATION property=%s replay=%s\n  no-quorum batch\n", ev.As("C10"), os.Args[2])
+				os.Exit(1)
+			}
+			fmt.Println("replay: property held")
+			return
+		}
 		if b, err := os.ReadFile(os.Args[2]); err == nil && json.Unmarshal(b, &f) == nil && f.Replay.Case != nil {
 			run := ev.Start("C10", "model_checking")
 			systemCase(run, *f.Replay.Case)
@@ -661,6 +783,7 @@ func main() {
 		for _, c := range cases {
 			calls += systemCase(run, c)
 		}
+		calls += noQuorumBatch(run)
 		return ev.Coverage{
 			"evaluations":                   evals + calls,
 			"distinct_nontrivial":           distinct + calls,
